@@ -132,17 +132,55 @@ def worker_random(task):
     return acc
 
 
-# ---- randomizer_bin_und: output-level contract only (whole-array set operations, DESIGN 5/C01) ---------------------
+# ---- randomizer_bin_und: output-level contract + one woven loop invariant (whole-array set operations, DESIGN 5/C01) ----
+_BIN = {}
+
+
+def _bin_mon(R, i, j, it, k):
+    """invariant at the head of `for it in range(k)`: every slot still to be processed names a present connection of the
+    working matrix (a slot pointing at a removed connection is later 'rewired' although it does not exist)."""
+    st = _BIN.get('st')
+    if st is None or st.get('bad'):
+        return
+    for m in range(int(it), int(k)):
+        if R[i[m], j[m]] != 1:
+            st['bad'] = 'slot %d = (%d, %d) names no connection at iteration %d' % (m, i[m], j[m], it)
+            return
+
+
+def _bin_woven():
+    if 'f' not in _BIN:
+        import bct.algorithms.reference as ref
+        from engine import weave as W
+        _BIN['f'] = W.weave(ref, 'randomizer_bin_und', inserts=[{'where': 'loop_head', 'key': 'for it in range(k)', 'code': '__mon(R, i, j, it, k)'}],
+                            hooks={'__mon': _bin_mon})
+    return _BIN['f']
+
+
 def worker_bin(task):
     n, bitlist, alphas, seeds, dtype = task
     acc = Acc()
-    for bits in bitlist:
-        A = G.und_from_bits(n, bits, dtype=dtype)
+    fw = _bin_woven()
+    if n < 0:
+        # seeded random graphs, n = 6..10 (bitlist holds generator seeds)
+        graphs = []
+        for gs in bitlist:
+            r = np.random.RandomState(gs)
+            nn = int(r.randint(6, 11))
+            U = np.triu(r.random_sample((nn, nn)) < r.uniform(.2, .6), 1).astype(dtype)
+            graphs.append(U + U.T)
+    else:
+        graphs = [G.und_from_bits(n, bits, dtype=dtype) for bits in bitlist]
+    for A in graphs:
         for alpha in alphas:
             for s in seeds:
                 Ain = A.copy()
                 try:
-                    R = bct.randomizer_bin_und(A, alpha, seed=s)
+                    _BIN['st'] = {}
+                    R = fw(A, alpha, seed=s)
+                    if _BIN['st'].get('bad'):
+                        acc.violate('randomizer_bin_und/INV-unprocessed-slots-name-present-connections', _BIN['st']['bad'],
+                                    {'function': 'randomizer_bin_und', 'R': Ain.tolist(), 'alpha': alpha, 'seed': s, 'dtype': str(dtype)})
                 except bct.BCTParamError:
                     acc.case()
                     continue
@@ -212,7 +250,7 @@ def run_bounded(run, tier, seed):
     merge_all(run, 'rewiring-routines-random', pmap(worker_random, rt))
     # randomizer_bin_und
     nb = 6 if thorough else 5
-    run.bounded_part('randomizer_bin_und', bounds={'graphs': 'all labelled undirected graphs n = 4..%d, float and int dtype' % nb, 'alpha': [0, .5, 1], 'seeds': 3},
+    run.bounded_part('randomizer_bin_und', bounds={'graphs': 'all labelled undirected graphs n = 4..%d, float and int dtype; plus %s seeded random graphs n = 6..10 x %s seeds x alpha {1, .6} with a woven loop invariant (unprocessed slots name present connections)' % (nb, '480' if thorough else '96', '40' if thorough else '25'), 'alpha': [0, .5, 1], 'seeds': 3},
                      rule='one case = (graph, alpha, seed); non-trivial = output differs from input', exhaustive=False)
     bt = []
     for n in range(4, nb + 1):
@@ -223,4 +261,7 @@ def run_bounded(run, tier, seed):
             bt.append((n, ch, [0, .5, 1.0], [seed, seed + 1, seed + 2], float))
             if n <= 5:
                 bt.append((n, ch, [1.0], [seed], int))
+    nrg, nsd = (480, 40) if thorough else (96, 25)
+    for ch in chunks(list(range(seed * 7919 + 1, seed * 7919 + 1 + nrg)), 16):
+        bt.append((-1, ch, [1.0, .6], list(range(seed, seed + nsd)), float))
     merge_all(run, 'randomizer_bin_und', pmap(worker_bin, bt))
